@@ -177,6 +177,12 @@ def load_expectations(ctx):
             stats["reports_of_onion_revisions_skipped"] += 1   # describe a revision kept in a separate .onion file
             continue
         p = os.path.join(root, h5)
+        if not os.path.exists(p) and h5.endswith("-tmp.h5") and os.path.exists(os.path.join(root, h5[:-7] + ".h5")):
+            # the h5format_convert tests dump a converted COPY "X-tmp.h5" of the shipped X.h5: the conversion rewrites storage
+            # metadata (superblock, chunk indexes), not the objects - names, kinds, types and shapes are those of X.h5
+            h5 = h5[:-7] + ".h5"
+            p = os.path.join(root, h5)
+            stats["reports_of_converted_copies_paired_with_the_original"] += 1
         if not os.path.exists(p):
             stats["reports_for_absent_files"] += 1
             continue
